@@ -155,7 +155,14 @@ func (r *remoteReplicator) IsReady() bool {
 			if _, online := r.stateMgr.GetLiveNode(follower); online && r.isSuspend.CompareAndSwap(true, false) {
 				return r.IsReady()
 			}
-			<-r.suspend // wait follower node online
+			select {
+			case <-r.suspend: // wait follower node online
+			case <-r.ctx.Done():
+				// the partition is stopping: it waits for its replica loops, which must not wait for a node
+				// that may never come back
+				r.isSuspend.Store(false)
+				return false
+			}
 		}
 		return r.IsReady() // check replicator is ready now
 	}
